@@ -355,4 +355,173 @@ theorem finalLen_opt_le (r : Resp) (c : Cut) (o o' : Option Opt) (k : Nat)
   unfold finalLen
   split <;> omega
 
+/-! ## The option removal at the end of the repaired `truncate` -/
+
+theorem truncOpt_false (t : Transport) (cfgMax : Nat) (req : Option Opt) (r : Resp) :
+    truncOpt false t cfgMax req r =
+      dropOpts (maxDNSSize t.isUdp (advertised req) (t.cap cfgMax)) r
+        (truncate (tsigAtTruncate req r) (maxDNSSize t.isUdp (advertised req) (t.cap cfgMax)) r
+          (baseOpt false req r)) (baseOpt false req r) := by
+  simp [truncOpt, truncCut]
+
+/-- `dropOpts` leaves the record alone or empties its option list; header fields never change. -/
+theorem dropOpts_cases (size : Nat) (r : Resp) (c : Cut) (o : Option Opt) :
+    dropOpts size r c o = o ∨
+      ∃ b, o = some b ∧ dropOpts size r c o = some { b with opts := [] } := by
+  cases o with
+  | none => left; rfl
+  | some b =>
+    simp only [dropOpts]
+    split
+    · right; exact ⟨b, rfl, rfl⟩
+    · left; rfl
+
+theorem optLen_dropOpts_le (size : Nat) (r : Resp) (c : Cut) (o : Option Opt) :
+    optLen? (dropOpts size r c o) ≤ optLen? o := by
+  rcases dropOpts_cases size r c o with h | ⟨b, hb, h⟩
+  · rw [h]; exact Nat.le_refl _
+  · rw [h, hb]; simp [optLen?, optLen, optsLen]
+
+theorem lensOf_dropOpts (code size : Nat) (r : Resp) (c : Cut) (o : Option Opt) :
+    lensOf? code (dropOpts size r c o) = lensOf? code o ∨ lensOf? code (dropOpts size r c o) = [] := by
+  rcases dropOpts_cases size r c o with h | ⟨b, hb, h⟩
+  · left; rw [h]
+  · right; rw [h]; simp [lensOf?, lensOf]
+
+/-- With every count at zero the message is header + question + OPT. -/
+theorem finalLen_zero (r : Resp) (c : Cut) (o : Option Opt) (ha : c.ka = 0) (hn : c.kn = 0)
+    (he : c.ke = 0) : finalLen r c o = r.q + optLen? o := by
+  unfold finalLen
+  split <;> simp [ha, hn, he, sum]
+
+/-- If the truncated message is still longer than the limit, nothing but header, question and
+OPT is left. -/
+theorem cut_zero_of_over (size0 : Nat) (r : Resp) (opt : Option Opt) (hc : Contract r)
+    (h : finalLen r (truncate false size0 r opt) opt > max size0 minMsgSize) :
+    (truncate false size0 r opt).ka = 0 ∧ (truncate false size0 r opt).kn = 0 ∧
+    (truncate false size0 r opt).ke = 0 := by
+  have hb := finalLen_truncate_le size0 r opt hc
+  have hq : r.q + optLen? opt > max size0 minMsgSize := by omega
+  have hu := hc.comp_le_unc
+  unfold truncate msgTruncate
+  simp only [Bool.false_or]
+  have hfit : ¬ (r.unc + optLen? opt ≤ max size0 minMsgSize) := by omega
+  simp only [hfit, decide_false, Bool.false_eq_true, ↓reduceIte]
+  have h0 : ¬ (r.q + optLen? opt < max size0 minMsgSize) := by omega
+  unfold cutOver
+  simp only [h0, ↓reduceIte]
+  split <;> simp
+
+/-- The message after the repaired `truncate` (with the OPT record as that call leaves it) is no
+longer than the limit, unless header + question + a bare OPT record alone exceed it. -/
+theorem finalLen_dropOpts_le (size0 : Nat) (r : Resp) (opt : Option Opt) (hc : Contract r)
+    (hs : minMsgSize ≤ size0) :
+    finalLen r (truncate false size0 r opt) (dropOpts size0 r (truncate false size0 r opt) opt)
+      ≤ max size0 (r.q + 11) := by
+  have hb := finalLen_truncate_le size0 r opt hc
+  have hm : max size0 minMsgSize = size0 := by omega
+  rw [hm] at hb
+  by_cases hover : finalLen r (truncate false size0 r opt) opt > size0
+  · obtain ⟨ha, hn, he⟩ := cut_zero_of_over size0 r opt hc (by omega)
+    rw [finalLen_zero r _ _ ha hn he]
+    rw [finalLen_zero r _ _ ha hn he] at hover
+    cases opt with
+    | none => simp [dropOpts, optLen?]; omega
+    | some b =>
+      unfold dropOpts
+      by_cases hemp : b.opts.isEmpty = true
+      · have : b.opts = [] := by simpa using hemp
+        simp [hemp, optLen?, optLen, this, optsLen]; omega
+      · have hover' : finalLen r (truncate false size0 r (some b)) (some b) > size0 := by
+          rw [finalLen_zero r _ _ ha hn he]; exact hover
+        simp [hemp, ha, hn, he, hover', optLen?, optLen, optsLen]; omega
+  · have := finalLen_opt_le r (truncate false size0 r opt) opt
+      (dropOpts size0 r (truncate false size0 r opt) opt) 0
+      (by have := optLen_dropOpts_le size0 r (truncate false size0 r opt) opt; omega)
+    omega
+
+/-- The OPT record handed to the padding step echoes the client's size with version 0. -/
+theorem truncOpt_echo (t : Transport) (cfgMax : Nat) (ro : Opt) (r : Resp) :
+    ∃ o, truncOpt false t cfgMax (some ro) r = some o ∧ o.udpSize = ro.udpSize ∧ o.version = 0 := by
+  rw [truncOpt_false]
+  have hb : ∃ b, baseOpt false (some ro) r = some b ∧ b.udpSize = ro.udpSize ∧ b.version = 0 := by
+    unfold baseOpt
+    cases r.opt <;> simp [rewriteOpt, synthOpt]
+  obtain ⟨b, hb, h1, h2⟩ := hb
+  rcases dropOpts_cases (maxDNSSize t.isUdp (advertised (some ro)) (t.cap cfgMax)) r
+    (truncate (tsigAtTruncate (some ro) r) (maxDNSSize t.isUdp (advertised (some ro)) (t.cap cfgMax)) r
+      (baseOpt false (some ro) r)) (baseOpt false (some ro) r) with h | ⟨b', hb', h⟩
+  · rw [h, hb]; exact ⟨b, rfl, h1, h2⟩
+  · rw [h]
+    rw [hb] at hb'
+    cases hb'
+    exact ⟨_, rfl, h1, h2⟩
+
+/-- `normalize`'s own OPT handling neither adds nor alters an option other than NSID / EXPIRE. -/
+theorem lensOf_baseOpt (c : Nat) (req : Option Opt) (r : Resp) (h1 : c ≠ codeNSID)
+    (h2 : c ≠ codeEXPIRE) : lensOf? c (baseOpt false req r) = lensOf? c r.opt := by
+  unfold baseOpt
+  cases req with
+  | none => rfl
+  | some ro =>
+    cases hr : r.opt <;>
+      simp [lensOf?, rewriteOpt, synthOpt, lensOf_filterSupported c _ h1 h2]
+
+theorem lensOf_truncOpt (c : Nat) (t : Transport) (cfgMax : Nat) (req : Option Opt) (r : Resp)
+    (h1 : c ≠ codeNSID) (h2 : c ≠ codeEXPIRE) :
+    lensOf? c (truncOpt false t cfgMax req r) = lensOf? c r.opt ∨
+    lensOf? c (truncOpt false t cfgMax req r) = [] := by
+  rw [truncOpt_false]
+  rcases lensOf_dropOpts c (maxDNSSize t.isUdp (advertised req) (t.cap cfgMax)) r
+    (truncate (tsigAtTruncate req r) (maxDNSSize t.isUdp (advertised req) (t.cap cfgMax)) r
+      (baseOpt false req r)) (baseOpt false req r) with h | h
+  · left; rw [h, lensOf_baseOpt c req r h1 h2]
+  · right; exact h
+
+/-- The padding step changes no option other than padding, and not even that unless the
+transport pads and the client sent the option. -/
+theorem lensOf_padStep (c : Nat) (t : Transport) (req o : Option Opt) (draw : Nat)
+    (h : c ≠ codePadding ∨ ¬ (t.hasPadding = true ∧
+      (match req with | none => false | some ro => hasCode codePadding ro.opts) = true)) :
+    lensOf? c (padStep t req o draw) = lensOf? c o := by
+  unfold padStep
+  cases req with
+  | none => cases o <;> rfl
+  | some ro =>
+    cases o with
+    | none => rfl
+    | some b =>
+      by_cases hp : t.hasPadding = true
+      · simp only [hp, ↓reduceIte, padAnswer]
+        by_cases hc : hasCode codePadding ro.opts = true
+        · simp only [hc, ↓reduceIte]
+          rcases h with h | h
+          · simp [lensOf?, lensOf_setOpt_ne codePadding c _ _ (fun e => h e.symm)]
+          · exact absurd ⟨hp, hc⟩ h
+        · have hc' : hasCode codePadding ro.opts = false := by simpa using hc
+          simp [hc']
+      · have hp' : t.hasPadding = false := by simpa using hp
+        simp [hp']
+
+/-- `addTCPKeepAlive` changes no option other than keep-alive, and not even that unless the client
+sent the option. -/
+theorem lensOf_addKeepAlive (c : Nat) (req o : Option Opt) (idle : Nat)
+    (h : c ≠ codeKeepAlive ∨
+      (match req with | none => false | some ro => hasCode codeKeepAlive ro.opts) = false) :
+    lensOf? c (addKeepAlive req o idle) = lensOf? c o := by
+  unfold addKeepAlive
+  cases req with
+  | none => cases o <;> rfl
+  | some ro =>
+    cases o with
+    | none => rfl
+    | some b =>
+      by_cases hc : hasCode codeKeepAlive ro.opts = true
+      · simp only [hc, ↓reduceIte]
+        rcases h with h | h
+        · simp [lensOf?, lensOf_setOpt_ne codeKeepAlive c _ _ (fun e => h e.symm)]
+        · simp [hc] at h
+      · have hc' : hasCode codeKeepAlive ro.opts = false := by simpa using hc
+        simp [hc']
+
 end Agd.Normalize
